@@ -3,7 +3,9 @@ C15 — models of `TxMetadata.Bytes/ReadFrom` (`embedded/store/tx_metadata.go`) 
 `KVMetadata.Bytes/unsafeReadFrom` (`embedded/store/kv_metadata.go`).
 
 Go slice semantics are explicit: `Fault.panic` is the outcome of a run-time panic
-(out-of-range slice expression, slicing beyond the capacity of a fixed array).
+(out-of-range slice expression, slicing beyond the capacity of a fixed array).  Since the length
+guard in `extraAttribute.deserialize` (`n > maxExtraLen || len(b) < sszSize+n`) no decoder
+reaches one; `extraSerialize` keeps it for values built outside the API limits.
 The attribute maps are represented by their (finitely many) possible entries.
 Core Lean only.
 -/
@@ -67,9 +69,9 @@ def txmdLoop : Nat → Bytes → TxMd → Except Fault TxMd
       else
         let l := beVal (r.take Gen.storeSszSize)
         let body := r.drop Gen.storeSszSize
-        -- `a.extra = make([]byte, l); copy(a.extra, b[sszSize:])`; the caller then does `i += 2+l`;
-        -- when `l` exceeds what is left, `i > len(b)` and the next `b[i:]` panics
-        if l > body.length then .error .panic
+        -- `if n > maxExtraLen || len(b) < sszSize+n { return 0, ErrCorruptedData }`, then
+        -- `a.extra = make([]byte, n); copy(a.extra, b[sszSize:])`; the caller does `i += 2+n`
+        if l > Gen.storeMaxExtraLen ∨ l > body.length then .error .corrupted
         else txmdLoop fuel (body.drop l) { md with extra := some (body.take l) }
     else .error .corrupted
 
